@@ -2,8 +2,8 @@
 Spec side of C05 / C13: what the properties demand of an *observed* run of a node, independent of the
 model in `Dtn7.Model.Node` (only its data types are shared).
 
-An observation is, per event: the event, the sends the mock CLAs saw (`Output.sent addr tag ok`) and a
-view of the store afterwards (per item: key, tag of the stored bundle, pending flag, constraints, the
+An observation is, per event: the event, the sends the mock CLAs saw (`Output.sent peer bundle ok`) and a
+view of the store afterwards (per item: key, the stored bundle, pending flag, constraints, the
 per-algorithm sent lists) plus the in-memory spray bookkeeping.  The driver evaluates these predicates on
 the observations written by the Go harness (the implementation's own behaviour); the theorems in
 `Dtn7.Props.C05/C13` prove them for the model's own trace for every history and every environment.
@@ -14,7 +14,8 @@ namespace Dtn7.Node
 
 structure ItemView where
   key : Key
-  tag : Nat
+  /-- the stored bundle -/
+  bundle : Bundle
   pending : Bool
   cons : Cons
   receiver : Option Eid
@@ -38,31 +39,19 @@ structure Obs where
   view : View
 deriving DecidableEq, Repr
 
-/-- What the Spec knows about the experiment besides the observations. -/
-structure Ctx where
-  cfg : Cfg
-  /-- the bundles that occur in the history (tag ↦ definition) -/
-  bundles : List Bundle
-  /-- the convergence senders that occur in the history (address ↦ peer endpoint) -/
-  peers : List Peer
-deriving Repr
-
-def Ctx.bundle (c : Ctx) (tag : Nat) : Option Bundle := c.bundles.find? (fun b => b.tag == tag)
-def Ctx.peer (c : Ctx) (addr : Nat) : Option Peer := c.peers.find? (fun p => p.addr == addr)
+def itemView (kv : Key × Item) : ItemView :=
+  { key := kv.1, bundle := kv.2.bundle, pending := kv.2.pending, cons := kv.2.cons,
+    receiver := kv.2.receiver, epiDst := kv.2.rt.epiDst,
+    sentE := kv.2.rt.sentE, sentP := kv.2.rt.sentP, sentD := kv.2.rt.sentD }
 
 /-- The view of a model state. -/
-def viewOf (n : Node) : View :=
-  { items := n.store.map (fun kv =>
-      { key := kv.1, tag := kv.2.bundle.tag, pending := kv.2.pending, cons := kv.2.cons,
-        receiver := kv.2.receiver, epiDst := kv.2.epiDst,
-        sentE := kv.2.sentE, sentP := kv.2.sentP, sentD := kv.2.sentD })
-    spray := n.spray }
+def viewOf (n : Node) : View := { items := n.store.map itemView, spray := n.spray }
 
 def obsOf (t : Event × List Output × Node) : Obs := { ev := t.1, outs := t.2.1, view := viewOf t.2.2 }
 
 /-! ## Which bundles carry an obligation -/
 
-/-- The lifetime of `b`, accepted at time `at`, has not ended at time `now`. -/
+/-- The lifetime of `b`, accepted at time `at_`, has not ended at time `now`. -/
 def lifetimeOk (now at_ : Nat) (b : Bundle) : Bool :=
   (if b.ts == 0 then b.age.isSome else decide (now ≤ b.ts + b.lifetime)) &&
   (match b.age with
@@ -102,7 +91,7 @@ structure SpecSt where
   /-- connected senders according to the events -/
   peers : List Peer
   obls : List Obl
-  /-- (tag, peer endpoint): algorithm-chosen transmissions that succeeded while the node holds the bundle -/
+  /-- (bundle tag, peer endpoint): algorithm-chosen transmissions that succeeded while the node holds the bundle -/
   okSent : List (Nat × Eid)
   /-- the view after the previous event -/
   prev : View
@@ -121,100 +110,98 @@ def nowAfter (now : Nat) : Event → Nat
   | .cleanTick t => t
   | _ => now
 
+/-- Was the bundle with this tag handed to this CLA in the event? -/
 def sentIn (outs : List Output) (addr tag : Nat) : Bool :=
-  outs.any (fun o => match o with | .sent a t _ => a == addr && t == tag | _ => false)
-
-def sentOkIn (outs : List Output) (tag : Nat) : Bool :=
-  outs.any (fun o => match o with | .sent _ t ok => t == tag && ok | _ => false)
-
-/-- Tags of the universe that share the bundle ID of `b`. -/
-def sameIdTags (c : Ctx) (b : Bundle) : List Nat :=
-  (c.bundles.filter (fun x => x.key == b.key)).map (·.tag)
+  outs.any (fun o => match o with | .sent p b _ => p.addr == addr && b.tag == tag | _ => false)
 
 /-- Was a copy of the obligation's bundle successfully handed to a convergence layer in this event? -/
-def Obl.discharged (c : Ctx) (o : Obl) (outs : List Output) : Bool :=
-  if o.strict then sentOkIn outs o.b.tag else (sameIdTags c o.b).any (sentOkIn outs)
+def Obl.discharged (o : Obl) (outs : List Output) : Bool :=
+  outs.any (fun x => match x with
+    | .sent _ b ok => ok && (if o.strict then b.tag == o.b.tag else b.key == o.b.key)
+    | _ => false)
 
 /-- Is the obligation's bundle in the store (and which item)? -/
 def Obl.item (o : Obl) (v : View) : Option ItemView :=
-  if o.strict then v.items.find? (fun i => i.tag == o.b.tag) else v.get o.b.key
+  if o.strict then v.items.find? (fun i => i.bundle.tag == o.b.tag) else v.get o.b.key
 
 /-- The new obligation an event creates: a bundle accepted for forwarding whose lifetime has not ended
 and which is not refused for cause. -/
-def newObl (c : Ctx) (s : SpecSt) : Event → Option Obl
+def newObl (c : Cfg) (s : SpecSt) : Event → Option Obl
   | .submit b =>
-    if b.src.node == c.cfg.self && b.dst.node != c.cfg.self && lifetimeOk s.now s.now b && !hopRefused b
+    if b.src.node == c.self && b.dst.node != c.self && lifetimeOk s.now s.now b && !hopRefused b
     then some { b := b, strict := true, acceptedAt := s.now } else none
   | .receive b _ =>
-    if b.dst.node != c.cfg.self && lifetimeOk s.now s.now b && !hopRefused b && !b.delBlock
+    if b.dst.node != c.self && lifetimeOk s.now s.now b && !hopRefused b && !b.delBlock
        && (s.prev.get b.key).isNone
     then some { b := b, strict := false, acceptedAt := s.now } else none
   | _ => none
 
 /-- The obligations alive after the event: old and new ones that were not discharged by a successful
 transmission and whose lifetime has not ended. -/
-def oblsAfter (c : Ctx) (s : SpecSt) (o : Obs) : List Obl :=
-  let now := nowAfter s.now o.ev
+def oblsAfter (c : Cfg) (s : SpecSt) (o : Obs) : List Obl :=
   (s.obls ++ (newObl c s o.ev).toList).filter
-    (fun ob => !ob.discharged c o.outs && lifetimeOk now ob.acceptedAt ob.b)
+    (fun ob => !ob.discharged o.outs && lifetimeOk (nowAfter s.now o.ev) ob.acceptedAt ob.b)
 
 /-! ## C05 clauses -/
 
-/-- `Retained`: every live obligation is in the store and marked for retry. The result names the failing
-clause and input class. -/
-def retainedFail (c : Ctx) (s : SpecSt) (o : Obs) : Option String :=
-  (oblsAfter c s o).findSome? fun ob =>
-    match ob.item o.view with
-    | some i => if i.pending then none else some "retained-not-pending"
-    | none =>
-      if ob.strict && (o.view.get ob.b.key).isSome then some "retained-lost-same-id-submit"
-      else if ob.b.ts == 0 && (match o.ev with | .cleanTick _ => true | _ => false)
-      then some "retained-lost-zero-time-clean"
-      else some "retained-lost"
+def isCleanTick : Event → Bool
+  | .cleanTick _ => true
+  | _ => false
 
-/-- Bundles waiting in the store before the event (the implementation's own store), not refusable now. -/
-def waiting (c : Ctx) (s : SpecSt) (now : Nat) : List (ItemView × Bundle) :=
-  s.prev.items.filterMap fun i =>
-    match c.bundle i.tag with
-    | some b =>
-      if i.pending && b.dst.node != c.cfg.self && !hopRefused b
-         -- the reception time of a stored clock-less bundle is not visible: only its age counts
-         && lifetimeOk now now b
-      then some (i, b) else none
-    | none => none
+/-- `Retained` for one obligation: in the store and marked for retry. The result names the failing
+clause and input class. -/
+def retainedFail1 (o : Obs) (ob : Obl) : Option String :=
+  match ob.item o.view with
+  | some i => if i.pending then none else some "retained-not-pending"
+  | none =>
+    if ob.strict && (o.view.get ob.b.key).isSome then some "retained-lost-same-id-submit"
+    else if ob.b.ts == 0 && isCleanTick o.ev then some "retained-lost-zero-time-clean"
+    else some "retained-lost"
+
+/-- `Retained`: every live obligation is in the store and marked for retry. -/
+def retainedFail (c : Cfg) (s : SpecSt) (o : Obs) : Option String :=
+  (oblsAfter c s o).findSome? (retainedFail1 o)
+
+/-- A bundle waiting in the store (the implementation's own store before the event) that is not
+refusable now. The reception time of a stored clock-less bundle is not visible: only its age counts. -/
+def isWaiting (c : Cfg) (now : Nat) (i : ItemView) : Bool :=
+  i.pending && i.bundle.dst.node != c.self && !hopRefused i.bundle && lifetimeOk now now i.bundle
 
 /-- `SentToDestination`: after `peerUp` / `retryTick` every waiting bundle whose destination node is a
 connected peer was handed to every CLA of that peer. -/
-def directFail (c : Ctx) (s : SpecSt) (o : Obs) : Option String :=
+def directFail (c : Cfg) (s : SpecSt) (o : Obs) : Option String :=
   let ps := peersAfter s.peers o.ev
   let now := nowAfter s.now o.ev
   match o.ev with
   | .peerUp _ | .retryTick =>
-    (waiting c s now).findSome? fun ib =>
-      ps.findSome? fun p =>
-        if p.eid.sameNode ib.2.dst && !sentIn o.outs p.addr ib.1.tag then
-          -- the epidemic gate: every connected sender is already in the sent list
-          if c.cfg.algo == .epidemic && ps.all (fun q => ib.1.sentE.contains q.eid)
-          then some "direct-not-sent-all-peers-in-sent-list"
-          else some "direct-not-sent"
-        else none
+    s.prev.items.findSome? fun i =>
+      if isWaiting c now i then
+        ps.findSome? fun p =>
+          if p.eid.sameNode i.bundle.dst && !sentIn o.outs p.addr i.bundle.tag then
+            -- the epidemic gate: every connected sender is already in the sent list
+            if c.algo == .epidemic && ps.all (fun q => i.sentE.contains q.eid)
+            then some "direct-not-sent-all-peers-in-sent-list"
+            else some "direct-not-sent"
+          else none
+      else none
   | _ => none
 
 /-- `EpidemicFlood`: under (plain) epidemic routing, after `peerUp p` every waiting bundle whose sent list
 does not contain `p` and whose destination is not connected was handed to `p`. -/
-def floodFail (c : Ctx) (s : SpecSt) (o : Obs) : Option String :=
-  if c.cfg.algo == .epidemic && !c.cfg.mule then
+def floodFail (c : Cfg) (s : SpecSt) (o : Obs) : Option String :=
+  if c.algo == .epidemic && !c.mule then
     match o.ev with
     | .peerUp p =>
       let ps := peersAfter s.peers o.ev
       let now := nowAfter s.now o.ev
-      (waiting c s now).findSome? fun ib =>
-        if ps.any (fun q => q.addr == p.addr && q.eid == p.eid)
-           && !ib.1.sentE.contains p.eid
-           && !ps.any (fun q => q.eid.sameNode ib.2.dst)
+      s.prev.items.findSome? fun i =>
+        if isWaiting c now i
+           && ps.any (fun q => q.addr == p.addr && q.eid == p.eid)
+           && !i.sentE.contains p.eid
+           && !ps.any (fun q => q.eid.sameNode i.bundle.dst)
            -- a second CLA to the same peer is legitimately skipped
            && !ps.any (fun q => q.eid == p.eid && q.addr != p.addr)
-           && !sentIn o.outs p.addr ib.1.tag
+           && !sentIn o.outs p.addr i.bundle.tag
         then some "flood-missing" else none
     | _ => none
   else none
@@ -231,27 +218,24 @@ def restartFail (s : SpecSt) (o : Obs) : Option String :=
 
 /-- Does the replication clause apply to this bundle under this algorithm? (DTLSR replicates only its
 broadcast bundles; everything else goes to the single next hop of the routing table.) -/
-def replicates (c : Ctx) (b : Bundle) : Bool :=
-  match c.cfg.algo with
-  | .dtlsr => b.dst == c.cfg.bcast
+def replicates (c : Cfg) (b : Bundle) : Bool :=
+  match c.algo with
+  | .dtlsr => b.dst == c.bcast
   | _ => true
 
 /-- The algorithm-chosen transmissions of one event: (peer, bundle, outcome). A transmission to a CLA
 whose peer is the destination node is direct delivery, which bypasses the algorithm. -/
-def chosen (c : Ctx) (outs : List Output) : List (Peer × Bundle × Bool) :=
+def chosen (c : Cfg) (outs : List Output) : List (Peer × Bundle × Bool) :=
   outs.filterMap fun o =>
     match o with
-    | .sent a t ok =>
-      match c.peer a, c.bundle t with
-      | some p, some b => if p.eid.sameNode b.dst || !replicates c b then none else some (p, b, ok)
-      | _, _ => none
+    | .sent p b ok => if p.eid.sameNode b.dst || !replicates c b then none else some (p, b, ok)
     | _ => none
 
 /-- `NoReturn`: never to the node named in the previous-node block. -/
-def returnFail (c : Ctx) (o : Obs) : Option String :=
+def returnFail (c : Cfg) (o : Obs) : Option String :=
   (chosen c o.outs).findSome? fun pbk =>
     if pbk.2.1.prev == some pbk.1.eid then
-      if c.cfg.algo == .binarySpray && pbk.2.1.bsCopies.isNone
+      if c.algo == .binarySpray && pbk.2.1.bsCopies.isNone
       then some "c13-to-prev-node-binary-spray-without-block"
       else some "c13-to-prev-node"
     else none
@@ -263,17 +247,14 @@ def okSentBefore (s : SpecSt) : Event → List (Nat × Eid)
   | _ => s.okSent
 
 /-- `NoDup`: not again to a peer that already got the bundle successfully while the node holds it. -/
-def dupFail (c : Ctx) (s : SpecSt) (o : Obs) : Option String :=
+def dupFail (c : Cfg) (s : SpecSt) (o : Obs) : Option String :=
   (chosen c o.outs).findSome? fun pbk =>
     if (okSentBefore s o.ev).contains (pbk.2.1.tag, pbk.1.eid) then some "c13-sent-twice" else none
 
 /-- The remembered successes after the event: forgotten when the bundle left the store. -/
-def okSentAfter (c : Ctx) (s : SpecSt) (o : Obs) : List (Nat × Eid) :=
+def okSentAfter (c : Cfg) (s : SpecSt) (o : Obs) : List (Nat × Eid) :=
   let add := (chosen c o.outs).filterMap fun pbk => if pbk.2.2 then some (pbk.2.1.tag, pbk.1.eid) else none
-  (okSentBefore s o.ev ++ add).filter fun te =>
-    match c.bundle te.1 with
-    | some b => (o.view.get b.key).isSome
-    | none => false
+  (okSentBefore s o.ev ++ add).filter fun te => o.view.items.any (fun i => i.bundle.tag == te.1)
 
 /-- Does the event (re-)create the item of this key (a new acceptance of the bundle ID)? -/
 def touchesKey (k : Key) : Event → Bool
@@ -281,43 +262,41 @@ def touchesKey (k : Key) : Event → Bool
   | .receive b _ => b.key == k
   | _ => false
 
-/-- The bookkeeping of the configured algorithm for this key after the event. -/
-def sentAfter (c : Ctx) (v : View) (k : Key) : Option (List Eid) :=
-  if storeKept c.cfg.algo then (v.get k).map (ItemView.sent c.cfg.algo)
+/-- The bookkeeping of the configured algorithm for this key. -/
+def sentOfView (c : Cfg) (v : View) (k : Key) : Option (List Eid) :=
+  if storeKept c.algo then (v.get k).map (ItemView.sent c.algo)
   else (lookupMeta v.spray k).map (·.sent)
 
 /-- `FailureReenablesExactly`: after the event, every peer whose transmission failed is out of the
 bundle's sent list, every peer whose transmission succeeded is in it, and nothing else was dropped. -/
-def reenableFail (c : Ctx) (s : SpecSt) (o : Obs) : Option String :=
+def reenableFail (c : Cfg) (s : SpecSt) (o : Obs) : Option String :=
   let ch := chosen c o.outs
   let r1 := ch.findSome? fun pbk =>
-    match sentAfter c o.view pbk.2.1.key with
+    match sentOfView c o.view pbk.2.1.key with
     | none => none
     | some l =>
       if pbk.2.2 then (if l.contains pbk.1.eid then none else some "c13-ok-peer-not-recorded")
       else if l.contains pbk.1.eid then
-        (if c.cfg.algo == .dtlsr then some "c13-failed-peer-still-listed-dtlsr"
+        (if c.algo == .dtlsr then some "c13-failed-peer-still-listed-dtlsr"
          else some "c13-failed-peer-still-listed")
       else none
   match r1 with
   | some f => some f
   | none =>
     -- entries of the previous list survive unless that peer's transmission failed in this event
-    let keys := (s.prev.items.map (·.key))
-    keys.findSome? fun k =>
+    (s.prev.items.map (·.key)).findSome? fun k =>
       if touchesKey k o.ev then none else
-      match sentAfter c s.prev k, sentAfter c o.view k with
+      match sentOfView c s.prev k, sentOfView c o.view k with
       | some before, some after =>
         if before.all (fun e => after.contains e ||
             ch.any (fun pbk => pbk.1.eid == e && pbk.2.1.key == k && !pbk.2.2))
         then none else some "c13-sent-list-lost-entry"
       | _, _ => none
 
-/-- `spray_restart_silent`: after a restart the spray variants choose nobody until the bundle is
-announced again. Checked as: the event right after a restart-induced loss sends nothing algorithm-chosen
-for bundles without bookkeeping. -/
-def sprayFail (c : Ctx) (s : SpecSt) (o : Obs) : Option String :=
-  if storeKept c.cfg.algo then none else
+/-- `spray_restart_silent`: without bookkeeping (lost by a restart) the spray variants choose nobody until
+the bundle is announced again. -/
+def sprayFail (c : Cfg) (s : SpecSt) (o : Obs) : Option String :=
+  if storeKept c.algo then none else
   (chosen c o.outs).findSome? fun pbk =>
     if touchesKey pbk.2.1.key o.ev then none
     else if (lookupMeta s.prev.spray pbk.2.1.key).isNone then some "c13-spray-chose-without-bookkeeping"
@@ -325,26 +304,26 @@ def sprayFail (c : Ctx) (s : SpecSt) (o : Obs) : Option String :=
 
 /-! ## Running the Spec over an observed history -/
 
-def specNext (c : Ctx) (s : SpecSt) (o : Obs) : SpecSt :=
+def specNext (c : Cfg) (s : SpecSt) (o : Obs) : SpecSt :=
   { now := nowAfter s.now o.ev
     peers := peersAfter s.peers o.ev
     obls := oblsAfter c s o
     okSent := okSentAfter c s o
     prev := o.view }
 
-def c05Fail (c : Ctx) (s : SpecSt) (o : Obs) : Option String :=
+def c05Fail (c : Cfg) (s : SpecSt) (o : Obs) : Option String :=
   (retainedFail c s o).orElse fun _ =>
   (directFail c s o).orElse fun _ =>
   (floodFail c s o).orElse fun _ => restartFail s o
 
-def c13Fail (c : Ctx) (s : SpecSt) (o : Obs) : Option String :=
+def c13Fail (c : Cfg) (s : SpecSt) (o : Obs) : Option String :=
   (returnFail c o).orElse fun _ =>
   (dupFail c s o).orElse fun _ =>
   (reenableFail c s o).orElse fun _ =>
   (sprayFail c s o).orElse fun _ => restartFail s o
 
 /-- First failure of `f` along the observed history: (index of the event, class). -/
-def firstFail (f : Ctx → SpecSt → Obs → Option String) (c : Ctx) : SpecSt → Nat → List Obs → Option (Nat × String)
+def firstFail (f : Cfg → SpecSt → Obs → Option String) (c : Cfg) : SpecSt → Nat → List Obs → Option (Nat × String)
   | _, _, [] => none
   | s, i, o :: os =>
     match f c s o with
